@@ -108,25 +108,31 @@ def oracle(line, out):
                 return "not a bytes range set: expected http 400, got %s" % out
         return None
     specs = re.findall(r"(\d*)-(\d*)", text.split("=", 1)[1])
-    if any(len(a) > 4300 or len(b) > 4300 for a, b in specs):
-        return None if out == "http 400" or rs is not None else None
+    overlong = any(len(a) > 4300 or len(b) > 4300 for a, b in specs)
+    if overlong and out == "http 400":
+        return None     # a number the implementation's integer conversion refuses: rejecting the header is allowed
+
+    def num(t):       # position texts of any length: what they denote, not what int() accepts
+        t = t.lstrip("0")
+        return 10 ** 30 if len(t) > 30 else int(t or "0")
+
     unsat = False
     inverted = False
     ivs = []
     for a, b in specs:
         if a:
-            first = int(a)
+            first = num(a)
             if first >= n:
                 unsat = True
             if b:
-                last = int(b)
+                last = num(b)
                 if first > last:
                     inverted = True
                 ivs.append((first, min(last, n - 1) + 1))
             else:
                 ivs.append((first, n))
         else:
-            suf = int(b)
+            suf = num(b)
             if suf == 0 or suf > n:
                 unsat = True
             ivs.append((n - suf, n))
